@@ -10,6 +10,8 @@ import (
 	"sort"
 	"strconv"
 	"time"
+
+	hclog "github.com/brutella/hc/log"
 )
 
 func main() {
@@ -84,6 +86,9 @@ func main() {
 		distinct: map[string]bool{}, nontrivial: map[string]bool{}, hist: map[string]int{},
 		knownHit: map[string]bool{}, extra: map[string]interface{}{},
 		known: loadKnown(*verif), start: time.Now(),
+	}
+	if os.Getenv("HC_LOG") == "" {
+		hclog.Info.Disable()
 	}
 	fn(c)
 	code := c.finish(pi)
